@@ -354,6 +354,30 @@ func defineOnlyFuncs(w *World) (map[string]bool, string) {
 			return true
 		})
 	}
+	// … or the direct form: flags.F = hasFlag("--define")
+	if field == nil {
+		for _, file := range cmdp.Syntax {
+			ast.Inspect(file, func(n ast.Node) bool {
+				as, ok := n.(*ast.AssignStmt)
+				if !ok || len(as.Lhs) != 1 || len(as.Rhs) != 1 {
+					return true
+				}
+				call, ok := ast.Unparen(as.Rhs[0]).(*ast.CallExpr)
+				if !ok || len(call.Args) != 1 {
+					return true
+				}
+				if tv, ok := cmdp.TypesInfo.Types[call.Args[0]]; !ok || tv.Value == nil || tv.Value.ExactString() != `"--define"` {
+					return true
+				}
+				if sel, ok := as.Lhs[0].(*ast.SelectorExpr); ok {
+					if v, ok := cmdp.TypesInfo.ObjectOf(sel.Sel).(*types.Var); ok && v.IsField() {
+						field = v
+					}
+				}
+				return true
+			})
+		}
+	}
 	if field == nil {
 		return nil, "flag field for --define not resolved"
 	}
@@ -892,18 +916,51 @@ func distinguishingFields(w *World, mapObj types.Object, st *types.Struct) ([]st
 				return true
 			}
 			// dependencies of the key
-			deps := map[types.Object]bool{}
-			var addDeps func(e ast.Expr)
-			addDeps = func(e ast.Expr) {
+			// (field-sensitive for locals of struct type: `article.Frame` in the key makes
+			// article.Frame a dependency, not every field of article)
+			type depKey struct {
+				obj   types.Object
+				field string
+			}
+			deps := map[depKey]bool{}
+			hasDep := func(o types.Object, field string) bool {
+				return deps[depKey{o, field}] || deps[depKey{o, ""}]
+			}
+			anyDepOn := func(o types.Object) bool {
+				for k := range deps {
+					if k.obj == o {
+						return true
+					}
+				}
+				return false
+			}
+			var eachVar func(e ast.Node, f func(o types.Object, field string))
+			eachVar = func(e ast.Node, f func(o types.Object, field string)) {
 				ast.Inspect(e, func(m ast.Node) bool {
-					if id, ok := m.(*ast.Ident); ok {
-						if o := info.ObjectOf(id); o != nil {
-							if _, isVar := o.(*types.Var); isVar && !deps[o] {
-								deps[o] = true
+					switch x := m.(type) {
+					case *ast.SelectorExpr:
+						if id, ok := x.X.(*ast.Ident); ok {
+							if o, ok := info.ObjectOf(id).(*types.Var); ok && !o.IsField() {
+								if fo, ok := info.ObjectOf(x.Sel).(*types.Var); ok && fo.IsField() {
+									f(o, x.Sel.Name)
+									return false
+								}
 							}
+						}
+					case *ast.Ident:
+						if o, ok := info.ObjectOf(x).(*types.Var); ok && !o.IsField() {
+							f(o, "")
 						}
 					}
 					return true
+				})
+			}
+			var addDeps func(e ast.Expr)
+			addDeps = func(e ast.Expr) {
+				eachVar(e, func(o types.Object, field string) {
+					if !hasDep(o, field) {
+						deps[depKey{o, field}] = true
+					}
 				})
 			}
 			addDeps(ix.Index)
@@ -935,7 +992,7 @@ func distinguishingFields(w *World, mapObj types.Object, st *types.Struct) ([]st
 									continue
 								}
 								o := info.ObjectOf(id)
-								if o == nil || !deps[o] {
+								if o == nil || !anyDepOn(o) {
 									continue
 								}
 								before := len(deps)
@@ -997,16 +1054,11 @@ func distinguishingFields(w *World, mapObj types.Object, st *types.Struct) ([]st
 				}
 				// every variable of the initialiser must be a key dependency, and there must be one
 				nvars, all := 0, true
-				ast.Inspect(kv.Value, func(m ast.Node) bool {
-					if id, ok := m.(*ast.Ident); ok {
-						if o, ok := info.ObjectOf(id).(*types.Var); ok && !o.IsField() {
-							nvars++
-							if !deps[o] {
-								all = false
-							}
-						}
+				eachVar(kv.Value, func(o types.Object, field string) {
+					nvars++
+					if !hasDep(o, field) {
+						all = false
 					}
-					return true
 				})
 				if nvars > 0 && all {
 					fields = append(fields, fid.Name)
